@@ -26,6 +26,7 @@ import (
 // WorldCfg is the configuration axis set of a scenario.
 type WorldCfg struct {
 	Dir        string        `json:"dir"` // forward, reverse, nested-ff, nested-rf
+	Carrier    string        `json:"carrier,omitempty"` // "" = in-memory carrier, "grpc" = real grpc-go over loopback TCP
 	ClientNoFC bool          `json:"client_nofc,omitempty"`
 	ServerNoFC bool          `json:"server_nofc,omitempty"`
 	StripReq   bool          `json:"strip_req,omitempty"`
@@ -38,6 +39,9 @@ type WorldCfg struct {
 
 func (c WorldCfg) String() string {
 	s := c.Dir
+	if c.Carrier != "" {
+		s += "," + c.Carrier
+	}
 	if c.ClientNoFC {
 		s += ",cnofc"
 	}
@@ -117,6 +121,10 @@ type World struct {
 	Opened     []grpctunnel.TunnelChannel
 	Closed     []grpctunnel.TunnelChannel
 
+	// Free: running outside a synctest bubble (stress engine E2).
+	Free bool
+	GRPC *grpcCarrier
+
 	// SigExtra is folded into the distinctness signature (inputs not visible in the op log).
 	SigExtra string
 
@@ -154,13 +162,42 @@ func (w *World) Note(format string, args ...any) {
 // VT is the virtual time since the world was created.
 func (w *World) VT() time.Duration { return time.Since(w.start) }
 
-// Wait blocks until every bubble goroutine is durably blocked.
-func (w *World) Wait() { synctest.Wait() }
+// Wait blocks until every bubble goroutine is durably blocked. In free-running
+// (non-bubble) mode it is a short real-time pause.
+func (w *World) Wait() {
+	if w.Free {
+		time.Sleep(2 * time.Millisecond)
+		return
+	}
+	synctest.Wait()
+}
 
-// Advance moves the virtual clock and waits for quiescence.
+// Advance moves the virtual clock and waits for quiescence. In free-running
+// mode it waits in real time (bounded) for the actors to settle.
 func (w *World) Advance(d time.Duration) {
+	if w.Free {
+		if d > 100*time.Millisecond {
+			d = 100 * time.Millisecond
+		}
+		time.Sleep(d)
+		return
+	}
 	time.Sleep(d)
 	synctest.Wait()
+}
+
+// carrierUp registers the tunnel service on the configured carrier, brings the
+// carrier up and returns the stub.
+func (w *World) carrierUp(svc tunnelpb.TunnelServiceServer) tunnelpb.TunnelServiceClient {
+	if w.Cfg.Carrier == "grpc" {
+		if w.GRPC == nil {
+			w.GRPC = newGRPCCarrier()
+		}
+		tunnelpb.RegisterTunnelServiceServer(w.GRPC.srv, svc)
+		return tunnelpb.NewTunnelServiceClient(w.GRPC.start())
+	}
+	tunnelpb.RegisterTunnelServiceServer(w.Conn, svc)
+	return tunnelpb.NewTunnelServiceClient(w.Conn)
 }
 
 // NewWorld creates the carrier, handler and service registrations; tunnels are
@@ -250,8 +287,7 @@ func (w *World) Open(openMD metadata.MD) error {
 			// expose the tunnel service itself over the tunnel for nesting
 			tunnelpb.RegisterTunnelServiceServer(w.Handler, w.Handler.Service())
 		}
-		tunnelpb.RegisterTunnelServiceServer(w.Conn, w.Handler.Service())
-		w.Stub = tunnelpb.NewTunnelServiceClient(w.Conn)
+		w.Stub = w.carrierUp(w.Handler.Service())
 		ch, err := grpctunnel.NewChannel(w.Stub, w.clientOpts()...).Start(ctx)
 		if err != nil {
 			return err
@@ -270,7 +306,7 @@ func (w *World) Open(openMD metadata.MD) error {
 			d2, i2 := NewSvc(w.Env, "nested-rev")
 			rs.RegisterService(d2, i2)
 			w.startServe(rs, ctx, "nested-rev")
-			w.Advance(10 * time.Millisecond)
+			w.awaitRegistered(1)
 			all := w.Handler.AllReverseTunnels()
 			if len(all) != 1 {
 				return fmt.Errorf("nested reverse tunnel not registered (%d)", len(all))
@@ -280,22 +316,34 @@ func (w *World) Open(openMD metadata.MD) error {
 	case "reverse":
 		// network server: handler is the tunnel client end
 		w.Handler = w.NewHandler(w.Cfg.ClientNoFC, AffinityFromMD)
-		tunnelpb.RegisterTunnelServiceServer(w.Conn, w.Handler.Service())
-		w.Stub = tunnelpb.NewTunnelServiceClient(w.Conn)
+		w.Stub = w.carrierUp(w.Handler.Service())
 		rs := grpctunnel.NewReverseTunnelServer(w.Stub, w.serverOpts()...)
 		desc, impl := NewSvc(w.Env, "rev-0")
 		rs.RegisterService(desc, impl)
 		w.startServe(rs, ctx, "rev-0")
-		w.Advance(10 * time.Millisecond)
+		w.awaitRegistered(1)
 		all := w.Handler.AllReverseTunnels()
 		if len(all) != 1 {
-			return fmt.Errorf("reverse tunnel not registered (%d), serve=%+v", len(all), w.Serves[0])
+			sr := w.ServeState(0)
+			return fmt.Errorf("reverse tunnel not registered (%d), serve returned=%v err=%v", len(all), sr.Returned, sr.Err)
 		}
 		w.Ch, w.TCh = all[0], all[0]
 	default:
 		return fmt.Errorf("unknown dir %q", w.Cfg.Dir)
 	}
 	return nil
+}
+
+// awaitRegistered waits until n reverse tunnels are registered (bubble: one
+// step of virtual time; free-running: polling in real time, bounded).
+func (w *World) awaitRegistered(n int) {
+	if !w.Free {
+		w.Advance(10 * time.Millisecond)
+		return
+	}
+	for i := 0; i < 2000 && len(w.Handler.AllReverseTunnels()) < n; i++ {
+		time.Sleep(5 * time.Millisecond)
+	}
 }
 
 func (w *World) startServe(rs *grpctunnel.ReverseTunnelServer, ctx context.Context, ident string) *ServeResult {
@@ -453,7 +501,15 @@ func (w *World) Finish() {
 		}
 	}
 	// goroutines
-	leaks := BubbleGoroutines()
+	if w.GRPC != nil {
+		w.GRPC.stop()
+	}
+	var leaks []string
+	if !w.Free {
+		leaks = BubbleGoroutines()
+	} else {
+		leaks = w.freeLeaks()
+	}
 	lib, other := 0, 0
 	for _, g := range leaks {
 		if strings.Contains(g, "github.com/jhump/grpctunnel.") || strings.Contains(g, "github.com/jhump/grpctunnel/") {
@@ -529,6 +585,35 @@ func (w *World) CheckTables(tc grpctunnel.TunnelChannel, inflightClient, infligh
 	if total > inflightServer || (exact && total != inflightServer) {
 		w.Violate("C14", "server-table-mismatch", "%s: server stream tables hold %v but %d handler(s) are running", where, all, inflightServer)
 	}
+}
+
+// freeLeaks (free-running mode): goroutines with a grpctunnel frame that are
+// still present two seconds after tear-down.
+func (w *World) freeLeaks() []string {
+	var out []string
+	for try := 0; try < 40; try++ {
+		out = out[:0]
+		buf := make([]byte, 4<<20)
+		n := runtime.Stack(buf, true)
+		for _, b := range strings.Split(string(buf[:n]), "\n\n") {
+			if strings.Contains(b, "github.com/jhump/grpctunnel.") && !strings.Contains(b, "verifharness.(*World).freeLeaks") {
+				out = append(out, b)
+			}
+		}
+		if len(out) == 0 {
+			return nil
+		}
+		time.Sleep(50 * time.Millisecond)
+	}
+	return out
+}
+
+// RunFree runs f without a bubble (real time, real parallelism).
+func RunFree(t *testing.T, cfg WorldCfg, f func(w *World)) *World {
+	w := NewWorld(t, cfg)
+	w.Free = true
+	f(w)
+	return w
 }
 
 // RunScenario runs f inside a fresh bubble with a fresh world and returns the
